@@ -112,7 +112,7 @@ P = {
 # Python functions re-translated into Lean from /repo's current source on every run (harness/py2lean.py, harness/pytrace.py) and proved equal to the
 # model (Tie/Py*.lean), with the property-level corollaries about the translated code (Tie/PyProps*.lean); DESIGN §9.5
 PYTIE = {
- 'C01': ('find_kmers, KmerMatch.kmer_indices', 'find_kmers_eq, kmer_indices_fwd/rev, py_find_kmers_complete'),
+ 'C01': ('find_kmers, KmerMatch.kmer_indices, KmerMatch.kmer_index, accumulate_kmers, default_accumulator, calc_signature', 'find_kmers_eq, kmer_indices_fwd/rev, py_find_kmers_complete, py_calc_signature_spec'),
  'C03': ('matching_taxon, GenomeMatch.next_taxon, classify, reportable_taxon, get_result_item',
          'matching_taxon_eq, next_taxon_eq, classify_default_eq, reportable_taxon_eq, get_result_item_eq, py_matching_spec, py_next_spec, py_coarsen_mono, py_classify_default_ok'),
  'C02': ('_cast_sigs_array, jaccard, jaccarddist (the Python wrappers of the kernels)', 'cast_sigs_array_eq, jaccarddist_eq, jaccard_eq, jaccarddist_bad, py_jaccarddist_correctly_rounded'),
@@ -121,7 +121,7 @@ PYTIE = {
  'C13': ('calc_file_signatures', 'calc_files_executor_eq, calc_files_pool_eq, calc_files_sequential_eq, calc_files_bad_concurrency, py_calc_files_any_order'),
  'C15': ('_cast_sigs_array, jaccard, jaccarddist', 'jaccarddist_eq, py_width_irrelevant'),
  'C18': ('ReadOnlySession, its before_commit listener, file_sessionmaker (structure)', 'session_structural_facts'),
- 'C06': ('find_kmers', 'find_kmers_eq'),
+ 'C06': ('find_kmers, KmerMatch.kmer_index, accumulate_kmers, calc_signature', 'find_kmers_eq, py_calc_signature_spec'),
  'C07': ('kmer_to_index, kmer_to_index_rc, index_dtype, nkmers', 'kmer_to_index_eq, kmer_to_index_rc_eq, index_dtype_eq, nkmers_eq'),
  'C08': ('strip_extensions, strip_seq_file_ext, get_file_id, calc_file_signatures', 'strip_extensions_eq, strip_seq_file_ext_eq, get_file_id_eq/_nostrip/_noext, calc_files_sequential_eq, calc_files_pool_eq'),
  'C09': ('classify, get_result_item', 'classify_default_eq, classify_strict_eq, get_result_item_eq, get_result_item_head, py_closest_ok'),
@@ -131,7 +131,11 @@ PYTIE = {
  'C16': ('strip_extensions, strip_seq_file_ext, get_file_id', 'get_file_id_eq'),
  'C19': ('the storage calls of dump_signatures_hdf5 and everything it calls, its exception handler',
          'writer_trace_eq, writer_trace_no_flush, writer_trace_close_last, py_crash_never_loads, hdf5_structural_facts'),
- 'C20': ('AdvancedIndexingMixin._check_index', 'check_index_eq, py_check_index_spec'),
+ 'C20': ('AdvancedIndexingMixin.__getitem__ (as inherited by the packed and by the list-backed collections, on a dynamically typed index), _check_index, _getitem_slice, _getitem_bool_array, ConcatenatedSignatureArray.__len__/_getitem_int/sizeof/_getitem_int_array/_getitem_slice, SignatureList._getitem_int/_getitem_int_array/__setitem__/__delitem__/insert',
+         'check_index_eq, py_check_index_spec, the PyConcat / PySigList / PyGetitem theorems listed in DESIGN §9.1'),
+ 'C11': ('the column table of CSVResultsExporter (COLUMNS: header and attribute path per column)', 'csv_header_eq, csv_row_eq, csv_structural_facts'),
+ 'C14': ('kspec_from_params, the parameter-deciding fragments of `dist` and `signatures create`, structural facts of the three commands', 'the PyParams / PyCliFacts theorems listed in DESIGN §9.1'),
+ 'C17': ('linkage_to_bio_tree', 'linkage_to_bio_tree_eq, linkage_to_bio_tree_gen, linkage_to_bio_tree_bad_labels, py_linkage_tree_props'),
 }
 
 REASON_PENDING = 'check not built yet in this round (machinery under construction; see DESIGN.md §8 build order)'
